@@ -74,3 +74,86 @@ pub proof fn lemma_accepted_chain_never_underflows(ms: Seq<ExprGroup<ActionExpr>
 {
     lemma_split_balance(ms, ms.len() as int);
 }
+
+// ---------------------------------------------------------------------------------------------------------------------
+// ... and the per-member clause: every action of every step `split_steps` produces is a member of the chain, and the
+// builder's postcondition `members_ok` says what each member is.  Together with the balance this is ALL the generator
+// requires of a branch (`branch_steps_ok`), so nothing about the parser's output is assumed at the boundary
+// `JoinInputDefault::parse` -> `JoinOutput::new` any more.
+
+pub open spec fn steps_members_ok<'a>(ss: Seq<Seq<&'a ExprGroup<ActionExpr>>>) -> bool {
+    forall|s: int| 0 <= s < ss.len() ==> (#[trigger] ss[s]).len() > 0 && step_members_ok(ss[s])
+}
+pub open spec fn step_members_ok<'a>(st: Seq<&'a ExprGroup<ActionExpr>>) -> bool {
+    forall|k: int| 0 <= k < st.len() ==> member_ok(*(#[trigger] st[k]))
+}
+
+pub proof fn lemma_split_members(ms: Seq<ExprGroup<ActionExpr>>, n: int)
+    requires 1 <= n <= ms.len(), members_ok(ms),
+    ensures steps_members_ok(split_steps(ms, n)),
+    decreases n,
+{
+    let cur = split_steps(ms, n);
+    let prev = split_steps(ms, n - 1);
+    let m = &ms[n - 1];
+    assert(member_ok(ms[n - 1]));
+    if n == 1 {
+        let e = Seq::<&ExprGroup<ActionExpr>>::empty();
+        assert(prev == seq![e]);
+        assert(ms[0].action.application_type == ApplicationType::Instant);
+        let one = e.push(m);
+        assert(cur == prev.update(0, one));
+        assert forall|s: int| 0 <= s < cur.len() implies (#[trigger] cur[s]).len() > 0 && step_members_ok(cur[s]) by {
+            assert(cur[s] == one);
+            assert forall|k: int| 0 <= k < one.len() implies member_ok(*(#[trigger] one[k])) by { assert(one[k] == m); }
+        }
+    } else {
+        lemma_split_members(ms, n - 1);
+        lemma_split_nonempty(ms, n - 1);
+        if ms[n - 1].action.application_type == ApplicationType::Deferred {
+            let one = seq![m];
+            assert(cur == prev.push(one));
+            assert forall|s: int| 0 <= s < cur.len() implies (#[trigger] cur[s]).len() > 0 && step_members_ok(cur[s]) by {
+                if s < prev.len() { assert(cur[s] == prev[s]); } else {
+                    assert(cur[s] == one);
+                    assert forall|k: int| 0 <= k < one.len() implies member_ok(*(#[trigger] one[k])) by { assert(one[k] == m); }
+                }
+            }
+        } else {
+            let last = prev.last();
+            let last2 = last.push(m);
+            assert(cur == prev.update(prev.len() - 1, last2));
+            assert forall|s: int| 0 <= s < cur.len() implies (#[trigger] cur[s]).len() > 0 && step_members_ok(cur[s]) by {
+                if s < prev.len() - 1 { assert(cur[s] == prev[s]); } else {
+                    assert(cur[s] == last2);
+                    assert(step_members_ok(prev[prev.len() - 1]));
+                    assert forall|k: int| 0 <= k < last2.len() implies member_ok(*(#[trigger] last2[k])) by {
+                        if k < last.len() { assert(last2[k] == last[k]); } else { assert(last2[k] == m); }
+                    }
+                }
+            }
+        }
+    }
+}
+
+/// the statement over the contracts: what `build_from_parse_stream` ensures is what `JoinOutput::new` requires
+pub proof fn lemma_accepted_branch(ms: Seq<ExprGroup<ActionExpr>>)
+    requires balanced(groups_of(ms), ms.len() as int), members_ok(ms),
+    ensures branch_steps_ok(ms),
+{
+    let n = ms.len() as int;
+    lemma_split_balance(ms, n);
+    lemma_split_members(ms, n);
+    let ss = split_steps(ms, n);
+    assert forall|s: int| 0 <= s < ss.len() implies (#[trigger] ss[s]).len() > 0 && acts_ok_o(ss[s]) by {
+        reveal(acts_ok_o);
+        let acts = ss[s];
+        assert(step_members_ok(acts));
+        assert forall|k: int| 0 <= k <= acts.len() implies #[trigger] wdepth(acts, k) >= 0 by {}
+        assert forall|k: int| 0 <= k < acts.len() implies match (#[trigger] acts[k]).action.move_type {
+            MoveType::Wrap => acts[k].expr.operands().len() == 1 && !must_not_hoist(acts[k].expr.ctor_of()) && !(acts[k].expr is Initial),
+            MoveType::Unwrap => true,
+            MoveType::None => printable(acts[k].expr),
+        } by { assert(member_ok(*acts[k])); }
+    }
+}
